@@ -84,8 +84,8 @@ def run(c):
     ]
     c.notes += ["gogrep delivers the captures; Go type checking of the rules file precedes irconv (ill-typed comparisons never reach it)"]
 
-    build_own_theories(c, "Base/Outcome.v", "Filters/FilterIR.v", "Filters/FilterAlgebra.v", "Filters/LoaderState.v", "Filters/ValueSources.v")
-    c.require_theories("Base/Outcome.v", "Filters/FilterIR.v", "Filters/FilterAlgebra.v", "Filters/LoaderState.v", "Filters/ValueSources.v")
+    build_own_theories(c, "Base/Outcome.v", "Filters/FilterIR.v", "Filters/FilterAlgebra.v", "Filters/LoaderState.v", "Filters/ValueSources.v", "Filters/FilterChains.v")
+    c.require_theories("Base/Outcome.v", "Filters/FilterIR.v", "Filters/FilterAlgebra.v", "Filters/LoaderState.v", "Filters/ValueSources.v", "Filters/FilterChains.v")
 
     # ---- P
     gen_ok = False
@@ -125,6 +125,7 @@ def run(c):
         N = meta["sites"]
         atoms = [r for r in rules if r["family"] == "atom"]
         panic_atoms = set(meta.get("panic_atoms") or [])
+        partial_atoms = {int(k): v for k, v in (meta.get("partial_atoms") or {}).items()}   # defined behind a guard only
         c.coverage["sites"] = N
         c.coverage["rules_" + tag] = len(rules)
 
@@ -174,6 +175,111 @@ def run(c):
 
         def clean(r):
             return not r.get("load_err") and not r.get("panic")
+
+        # ---------------------------------------------------------------- O: every generated filter against the check's own evaluator
+        atom_acc_all = {int(a["role"]): set(a["accept"]) for a in atoms}
+
+        class Boom(Exception):
+            pass
+
+        def ev_tree(t, i, j):
+            """Go's meaning of the filter at site i of column j: !, && and || with short circuit over the go/types facts (comparisons)
+            and the separately measured verdicts of the other predicates; a predicate that panics when consulted raises."""
+            k = t["k"]
+            if k == "not":
+                return not ev_tree(t["x"], i, j)
+            if k == "and":
+                return ev_tree(t["x"], i, j) and ev_tree(t["y"], i, j)
+            if k == "or":
+                return ev_tree(t["x"], i, j) or ev_tree(t["y"], i, j)
+            if k == "atom":
+                if t["atom"] in partial_atoms:
+                    defined, value = partial_atoms[t["atom"]]
+                    if i not in atom_acc_all[defined]:
+                        raise Boom()
+                    return i in atom_acc_all[value]
+                if t["atom"] in panic_atoms:
+                    raise Boom()
+                return i in atom_acc_all[t["atom"]]
+            site = sites[(i, j)]
+            if k == "cmp2":
+                va, vb = value_of(site, t["kind"], t["var"]), value_of(site, t["kind2"], t["var2"])
+                return va is not None and vb is not None and GO_OPS[t["tok"]](va, vb)
+            const = t["int"] if t.get("int") is not None else t["str"].encode()
+            if t["var"] == "zs":
+                vs = [(v["size"] if t["kind"] == 1 else (None if v["int"] is None else int(v["int"]))) for v in site["rest"]]
+                return all(v is not None and GO_OPS[t["tok"]](v, const) for v in vs)
+            v = value_of(site, t["kind"], t["var"])
+            return v is not None and GO_OPS[t["tok"]](v, const)
+
+        def predict(r):
+            """what one engine run over the sites, in order, delivers: the accepted sites before the first panic"""
+            out = []
+            for i in range(N):
+                try:
+                    if ev_tree(r["tree"], i, r["j"]):
+                        out.append(i)
+                except Boom:
+                    return out, True, i
+            return out, False, N
+
+        def operands(t, conn):
+            if t["k"] == conn:
+                return operands(t["x"], conn) + operands(t["y"], conn)
+            return [t]
+
+        for r in rules:
+            if not r.get("tree") or r["family"].startswith("shared") or r["role"] == "mixed":
+                continue
+            if r.get("load_err"):
+                if r["family"] == "tree" or r["family"].startswith("chain"):
+                    c.fail("oracle", "a filter built from documented predicates, comparisons and connectives is refused at load",
+                           input=inp(r), observed=r["load_err"])
+                continue
+            e_acc, e_panic, e_seen = predict(r)
+            if r["accept"] != e_acc or bool(r.get("panic")) != e_panic:
+                bad = sorted(set(r["accept"]) ^ set(e_acc))[:3]
+                what = "a filter tree does not mean Go's !, && and || (left to right, short circuit) over its comparisons and predicates"
+                extra = {"sites": [site_desc(i, r["j"]) for i in bad]}
+                if r["family"].startswith("chain") and r["tree"]["k"] in ("and", "or"):
+                    conn = r["tree"]["k"]
+                    what = ("F || G || H is not the union of what its operands accept" if conn == "or" else "F && G && H is not the intersection of what its operands accept") + \
+                           " (a chain of look-alike operands over different captures)"
+                    ops = operands(r["tree"], conn)
+                    if bad and not e_panic:
+                        try:
+                            extra["operand_verdicts_at_first_site"] = [ev_tree(o, bad[0], r["j"]) for o in ops]
+                        except Boom:
+                            pass
+                c.fail("oracle", what, input=inp(r, extra), expected={"accept": e_acc, "panic": e_panic},
+                       observed={"accept": r["accept"], "panic": r.get("panic") or None})
+            # the same engine run while a group is being debugged: RunContext.Debug only adds output
+            for d in r.get("dbg") or []:
+                if d["accept"] != r["accept"] or bool(d.get("panic")) != bool(r.get("panic")):
+                    c.fail("oracle", "setting RunContext.Debug (%s) changes what a filter accepts or which operands it consults "
+                           "(a right operand must not be consulted when the left one decides)" % (
+                               {"own": "to the rule's own group", "other": "to another group of the engine", "none-of-the-engine": "to a group the engine does not have"}[d["debug"]]),
+                           input=inp(r, {"RunContext.Debug": d["group"], "group": "g%d" % r["idx"]}),
+                           expected={"accept": r["accept"], "panic": r.get("panic") or None}, observed={"accept": d["accept"], "panic": d.get("panic") or None})
+                    continue
+                c.coverage["debug_mode_runs"] = c.coverage.get("debug_mode_runs", 0) + 1
+                if d["debug"] == "own" and d.get("panic") and r["accept"] == e_acc and e_panic:
+                    # the run ends at the first match on which a panicking predicate is consulted: every match before it was
+                    # accepted or explained as rejected
+                    if d["rejects"] != e_seen - len(e_acc):
+                        c.fail("oracle", "debugging a group: a predicate that panics when consulted is consulted on another match than Go's "
+                               "left-to-right short-circuit evaluation of the filter consults it on",
+                               input=inp(r, {"RunContext.Debug": d["group"], "sites": [site_desc(i, r["j"]) for i in sorted({min(d["rejects"] + len(e_acc), N - 1), min(e_seen, N - 1)})]}),
+                               expected={"matches rejected before the panic": e_seen - len(e_acc)}, observed={"matches rejected before the panic": d["rejects"], "panic": d["panic"]})
+                if d["debug"] == "own" and not d.get("panic"):
+                    # one "rejected by <reason>" line per rejected match, and the reason is a part of the filter as written
+                    if d["rejects"] != N - len(d["accept"]):
+                        c.fail("oracle", "debugging a group: the number of explained rejections differs from the number of rejected matches",
+                               input=inp(r, {"RunContext.Debug": d["group"]}), expected=N - len(d["accept"]), observed=d["rejects"])
+                    for reason in d.get("reasons") or []:
+                        if "".join(reason.split()) not in "".join(r["src"].split()):      # (the engine prints the operand with go/printer's spacing)
+                            c.fail("oracle", "debugging a group: a reject reason is not a part of the filter", input=inp(r, {"RunContext.Debug": d["group"]}), observed=reason)
+        c.coverage["chain_rules_" + tag] = len([r for r in rules if r["family"].startswith("chain")])
 
         for fam, m in fams.items():
             if fam.startswith("conn"):
@@ -360,7 +466,10 @@ def run(c):
         atomv = {}   # atom index -> verdict per site (None = panic)
         for a in atoms:
             ai = int(a["role"])
-            if ai in panic_atoms:
+            if ai in partial_atoms:
+                dset, vset = (set(x["accept"]) for x in (next(b for b in atoms if int(b["role"]) == k) for k in partial_atoms[ai]))
+                atomv[ai] = [(i in vset) if i in dset else None for i in range(N)]
+            elif ai in panic_atoms:
                 atomv[ai] = [None] * N
             else:
                 s = set(a["accept"])
